@@ -25,6 +25,7 @@ def run(rep: Report, repo: Repo):
     mod = repo.mod('wave_sim')
     kernel_twins(rep, repo, mod)
     capture_twins(rep, repo, mod)
+    capture_dtype_flow(rep, repo, mod)
     c03.stimulus_table(rep, repo, rid='C06.stimulus')
     state_transfer(rep, repo, mod)
     lane_flow(rep, repo, mod)
@@ -143,10 +144,12 @@ def capture_twins(rep, repo, mod):
     tol = {'seed=(seed<<4)+(vector<<20)+c_loc': 'seed=(seed<<4)+(vector<<20)+(y<<1)'}
     ok = len(pc) == 1 and len(pg) == 1
     if ok:
-        x = cz(pc[0])
+        import re as _re
+        unint = lambda t: _re.sub(r'\bint\((\w+)\)', r'\1', t)      # int() of an integer variable keeps its value (dtype flow: capture_dtype_flow)
+        x = unint(cz(pc[0]))
         for k, v in tol.items():
             x = x.replace(k, v)
-        ok = x == cz(pg[0])
+        ok = x == unint(cz(pg[0]))
     rep.ob('C06.capture', 'post-loop sampling block (tolerated: seed term c_loc vs y << 1)', ok)
     if not ok:
         rep.violate('C06.capture', mod, g, pg[0] if pg else 'if s_sqrt2 > 0', 'the post-loop blocks of the two capture kernels differ beyond the tolerated seed term', node=pg[0] if pg else g)
@@ -195,6 +198,68 @@ def capture_twins(rep, repo, mod):
     if not ok:
         rep.violate('C06.capture', mod, g, scale or 's_sqrt2', 'the scale the gpu capture kernel compares with 0 and divides by must be sd * sqrt(2) - the cpu kernel\'s value: '
                     'the factor sqrt(2) must be applied exactly once between WaveSimCuda.c_to_s and the kernel', node=calls[0] if calls else g)
+
+
+def capture_dtype_flow(rep, repo, mod):
+    """The sampling hash of wave_capture_cpu multiplies by a constant that does not fit int32. Arguments that are elements of the int32
+    location / capacity arrays at the call site (numpy int32 scalars in the pure-Python code path) must be converted with int() before they
+    reach that product: NumPy 2 raises OverflowError otherwise (c_to_s with sd > 0 would be unusable on the CPU path)."""
+    f = mod.func('wave_capture_cpu')
+    caller = mod.func('WaveSim.c_to_s')
+    params = [a.arg for a in f.args.args]
+    # names of the caller that hold array elements: loop targets over (zip of) self.<array> expressions
+    def is_array(e):
+        return any(isinstance(n, ast.Attribute) and is_name(n.value, 'self') for n in ast.walk(e)) and not (isinstance(e, ast.Call) and call_name(e) == 'range')
+    elems = set()
+    for loop in find_all(caller, ast.For):
+        it = loop.iter
+        if isinstance(it, ast.Call) and call_name(it) == 'zip' and isinstance(loop.target, ast.Tuple) and len(loop.target.elts) == len(it.args):
+            for t, a in zip(loop.target.elts, it.args):
+                if isinstance(t, ast.Name) and is_array(a):
+                    elems.add(t.id)
+        elif isinstance(loop.target, ast.Name) and is_array(it):
+            elems.add(loop.target.id)
+    tainted = set()
+    for c in find_all(caller, ast.Call):
+        if call_name(c) == 'wave_capture_cpu':
+            for k, a in enumerate(c.args):
+                if isinstance(a, ast.Name) and a.id in elems and k < len(params):
+                    tainted.add(params[k])
+            for kw in c.keywords:
+                if isinstance(kw.value, ast.Name) and kw.value.id in elems and kw.arg in params:
+                    tainted.add(kw.arg)
+
+    def raw(e, names):
+        """names read in e that are not the sole argument of int(...)"""
+        out = set()
+        for x in ast.walk(e):
+            if isinstance(x, ast.Name) and isinstance(x.ctx, ast.Load) and x.id in names:
+                par = getattr(x, '_parent', None)
+                if not (isinstance(par, ast.Call) and call_name(par) == 'int' and len(par.args) == 1 and par.args[0] is x):
+                    out.add(x.id)
+        return out
+    assigns = [st for st in ast.walk(f) if isinstance(st, (ast.Assign, ast.AugAssign))]
+    changed = True
+    while changed:
+        changed = False
+        for st in assigns:
+            tg = st.targets[0] if isinstance(st, ast.Assign) else st.target
+            if isinstance(tg, ast.Name) and tg.id not in tainted and raw(st.value, tainted):
+                if isinstance(st.value, ast.Compare) or (isinstance(st.value, ast.Call) and call_name(st.value) in ('float', 'int', 'bool')):
+                    continue
+                tainted.add(tg.id)
+                changed = True
+    bad = None
+    for st in assigns:
+        big = [c for c in ast.walk(st.value) if isinstance(c, ast.Constant) and isinstance(c.value, int) and not isinstance(c.value, bool) and c.value > 2 ** 31 - 1]
+        r = raw(st.value, tainted)
+        if big and r and bad is None:
+            bad = (st, big[0].value, sorted(r))
+    ok = bad is None
+    rep.ob('C06.capture', f'cpu: the sampling hash is built from Python ints (int32 array elements {sorted(tainted & set(params)) or "none"} converted with int() before the multiplier)', ok)
+    if not ok:
+        rep.violate('C06.capture', mod, f, bad[0], f'wave_capture_cpu combines {bad[2]} - derived from the int32 array element(s) that WaveSim.c_to_s passes - with the integer constant {bad[1]} '
+                    f'which does not fit int32: NumPy 2 raises OverflowError in the pure-Python code path (c_to_s with sd > 0 whenever a capture falls into the sampling window)', node=bad[0])
 
 
 def state_transfer(rep, repo, mod):
@@ -311,6 +376,10 @@ def lane_flow(rep, repo, mod):
             n += 1
             p = getattr(u, '_parent', None)
             ok, why = False, ''
+            lane_txt = lane
+            if isinstance(p, ast.Call) and call_name(p) == 'int' and len(p.args) == 1 and isinstance(getattr(p, '_parent', None), ast.BinOp):
+                lane_txt = f'int({lane})'       # int() of the lane index is the lane index
+                u, p = p, p._parent
             if isinstance(p, ast.Tuple) and isinstance(getattr(p, '_parent', None), ast.Subscript) and p._parent.slice is p:
                 base = cz(p._parent.value)
                 ok = p.elts[-1] is u and base in ('cbuf', 'c', 's', 'abuf', 'simctl_int')
@@ -329,7 +398,7 @@ def lane_flow(rep, repo, mod):
                 st = p
                 while not isinstance(st, ast.stmt):
                     st = st._parent
-                ok = isinstance(st, ast.Assign) and isinstance(st.targets[0], ast.Name) and st.targets[0].id in ('seed', '_rnd') and cz(p) == f'{lane}<<20'
+                ok = isinstance(st, ast.Assign) and isinstance(st.targets[0], ast.Name) and st.targets[0].id in ('seed', '_rnd') and cz(p) == f'{lane_txt}<<20'
                 why = f'arithmetic `{norm(st)[:60]}`'
             elif isinstance(p, ast.Assign) and cz(p) == 'vector=x':
                 ok = True
